@@ -124,7 +124,14 @@ var gnamesCur atomic.Value // *sync.Map of the running session
 func Run(rc *core.RunCtx) {
 	t := rc.Tape
 	w := rc.W
-	v := &probereg.Core[t.Choose(len(probereg.Core), "variant")]
+	// (v10 is generated without panic handlers: sessions, which inject panics, do not use it)
+	var usable []*uni.Variant
+	for i := range probereg.Core {
+		if probereg.Core[i].Name != "v10" {
+			usable = append(usable, &probereg.Core[i])
+		}
+	}
+	v := usable[t.Choose(len(usable), "variant")]
 	plan := &refexec.Plan{Seed: uint64(t.Choose(1<<16, "planseed")), MaxList: 2}
 	nestedFaults := t.Choose(4, "nested-faults")
 	switch nestedFaults {
